@@ -2431,3 +2431,185 @@ def c13_media_types(ctx):
 
 
 P.PROPS["C13"]["streams"].append(c13_media_types)
+
+
+# ---------------------------------------------------------------- round-8 strengthening
+def o_very_long_lines(ctx):
+    """a physical line is one token however long it is (65535 .. 140000 characters): names, descriptions, step texts,
+    cells, doc strings, comments come back whole, at their own line (the model is too slow on such lines: checked on the
+    implementation against the pieces the text was assembled from)"""
+    impl = impl_mod()
+
+    def check(n):
+        name, desc, text, cell, body, com = "f " + "n" * n, "d" * n, "g " + "z" * n, "x" * n, "y" * n, "# " + "c" * n
+        src = ("Feature: " + name + "\n  " + desc + "\n  Scenario: s\n    Given " + text + "\n      | " + cell + " | b |\n      \n    And h\n      \"\"\"\n      " + body
+               + "\n      \"\"\"\n  " + com + "\n")
+        r = impl.parse(False, "en", src)
+        if "ok" not in r:
+            return {"what": "a well-formed document with long lines is rejected", "result": canon(r)[:300]}
+        f = r["ok"]["feature"]
+        sc = f["children"][0]["scenario"]
+        got = [f["name"], f["description"], sc["steps"][0]["text"], sc["steps"][0]["dataTable"]["rows"][0]["cells"][0]["value"], sc["steps"][1]["docString"]["content"],
+               r["ok"]["comments"][0]["text"], sc["location"]["line"], sc["steps"][1]["location"]["line"], r["ok"]["comments"][0]["location"]["line"]]
+        want = [name, "  " + desc, text, cell, body, "  " + com, 3, 7, 11]
+        if got != want:
+            k = [i for i in range(len(want)) if got[i] != want[i]][0]
+            return {"what": "field %d of a document with lines of %d characters is not what was written" % (k, n), "got": str(got[k])[:80], "want": str(want[k])[:80]}
+        t = impl.tokens("en", src)
+        if "ok" not in t or len(t["ok"].splitlines()) != src.count("\n") + 1:
+            return {"what": "the token listing of a document with long lines does not have one row per line and one for the end of file"}
+        return None
+    return oracle("very-long-lines", [65535, 65536, 65537, 70000, 140000], check, describe=lambda n: "lines of %d characters" % n)
+
+
+for _pid in ("C03", "C04", "C18"):
+    P.PROPS[_pid]["streams"].append(o_very_long_lines)
+
+
+def c02_empty_step_texts(ctx):
+    """a step line made of its keyword alone (the keyword's own trailing blank included) is a step: the sentence
+    Feature / Scenario / Step / Step is accepted, with every step nested in the scenario"""
+    D = S.dialects()
+    srcs = []
+    for code in sorted(D)[::S.n_for(3, 1)]:
+        d = D[code]
+        kws = [k for role in ("given", "when", "then", "and", "but") for k in d[role]]
+        body = "".join("    %s\n" % k for k in kws[:12])
+        srcs.append("# language: %s\n%s: f\n  %s: s\n%s" % (code, d["feature"][0], d["scenario"][0], body))
+        srcs.append("# language: %s\n%s: f\n  %s: s\n    %sx\n%s" % (code, d["feature"][0], d["scenario"][0], kws[0], body.replace("\n", "\r\n")))
+        srcs.append("# language: %s\n%s: f\n  %s: s\n    %s" % (code, d["feature"][0], d["scenario"][0], kws[0]))   # no final newline
+    def steps_of(v):
+        out = []
+        P.walk(v, lambda p_, k, x: out.extend([[st.get("keyword"), st.get("text")] for st in x]) if k == "steps" else None)
+        return out
+    return e2e("empty-step-texts", srcs, lambda r, req=None: {"ok": steps_of(r["ok"])} if "ok" in r else {"outcome": P.outcome(r)},
+               nontrivial=nt_accepted("ast"), exhaustive=True)
+
+
+P.PROPS["C02"]["streams"].append(c02_empty_step_texts)
+P.PROPS["C05"]["streams"].append(c02_empty_step_texts)
+
+
+def o_custom_objects(ctx):
+    """the builder and the matcher handed to the parser are the ones it drives, whatever their truth value: a recording
+    builder that is an (empty) list, a matcher with a __len__"""
+    impl = impl_mod()
+    from gherkin.parser import Parser
+    from gherkin.token_matcher import TokenMatcher
+    from gherkin.ast_builder import AstBuilder
+    from gherkin.stream.id_generator import IdGenerator
+
+    class RecBuilder(list):
+        def __init__(self):
+            super().__init__()
+            self.inner = AstBuilder(IdGenerator())
+
+        def reset(self):
+            self.inner.reset()
+
+        def start_rule(self, r):
+            self.append(("S", r)); self.inner.start_rule(r)
+
+        def end_rule(self, r):
+            self.append(("E", r)); self.inner.end_rule(r)
+
+        def build(self, t):
+            self.append(("B", t.matched_type, t.location["line"])); self.inner.build(t)
+
+        def get_result(self):
+            return self.inner.get_result()
+
+    class LenMatcher(TokenMatcher):
+        def __len__(self):
+            return 0
+
+    docs = ["Feature: f\n  Background:\n    Given b\n  @t\n  Scenario Outline: o\n    Given <a>\n      | x |\n    @e\n    Examples:\n      | a |\n      | 1 |\n  Rule: r\n    Example: e\n      Given g\n        \"\"\"\n        d\n        \"\"\"\n",
+            "# language: fr\nFonctionnalité: f\n  Scénario: s\n    Soit x\n    Et y\n"]
+
+    def check(src):
+        rb = RecBuilder()
+        try:
+            got = Parser(rb).parse(src)
+        except Exception as e:  # noqa
+            return {"what": "a document accepted with the default builder is not with a recording one: %r" % (e,)}
+        ref = Parser().parse(src)
+        if canon(got) != canon(ref):
+            return {"what": "the result obtained through a recording builder differs"}
+        n = src.count("\n") + (0 if src.endswith("\n") else 1)
+        builds = [e for e in rb if e[0] == "B"]
+        if [e[2] for e in builds] != list(range(1, n + 2)):
+            return {"what": "the builder handed to the parser did not receive one token per line and the end of file", "received": [e[2] for e in builds][:20]}
+        depth = 0
+        for e in rb:
+            depth += 1 if e[0] == "S" else -1 if e[0] == "E" else 0
+            if depth < 0:
+                return {"what": "end_rule without start_rule"}
+        if depth != 0:
+            return {"what": "rules left open"}
+        if src.startswith("# language: fr"):
+            try:
+                a = Parser().parse("Fonctionnalité: f\n  Scénario: s\n    Soit x\n", LenMatcher("fr"))
+                b = Parser().parse("Fonctionnalité: f\n  Scénario: s\n    Soit x\n", TokenMatcher("fr"))
+            except Exception as e:  # noqa
+                return {"what": "the matcher handed to parse() was not used: %r" % (e,)}
+            if canon(a) != canon(b):
+                return {"what": "a matcher with a __len__ gives another result"}
+        return None
+    return oracle("custom-builder-and-matcher", docs, check, describe=lambda s: s[:60])
+
+
+P.PROPS["C02"]["streams"].append(o_custom_objects)
+P.PROPS["C18"]["streams"].append(o_custom_objects)
+
+
+def c12_hash_cells_and_wide_tables(ctx):
+    """'#' has no meaning inside a table row; a table may have any number of columns (1 .. 600): rectangular ones are
+    accepted, the first deviating row of a ragged one is reported"""
+    srcs = []
+    for rw in ("| #1 | x |", "| y | # two |", "| # |", "|#|#|", "| a | b | # was | c |", "| a # b | # |", "|  #x|y  #|", "| \\# | #\\| |"):
+        srcs.append("Feature: f\n  Scenario: s\n    Given g\n      %s\n      %s\n" % (rw, rw))
+        srcs.append("Feature: f\n  Scenario Outline: o\n    Given <a>\n    Examples:\n      %s\n      %s\n" % (rw, rw))
+    for w in (1, 2, 255, 256, 257, 258, 300, 600):
+        row = lambda i: "      |" + "".join(" c%d_%d |" % (i, j) for j in range(w)) + "\n"
+        srcs.append("Feature: f\n  Scenario: s\n    Given g\n" + row(0) + row(1) + row(2))
+        srcs.append("Feature: f\n  Scenario: s\n    Given g\n" + row(0) + row(1) + "      |" + " x |" * (w + 1) + "\n" + row(3))
+        srcs.append("Feature: f\n  Scenario Outline: o\n    Given <c0_0>\n    Examples:\n" + row(0) + row(1))
+    return e2e("hash-cells-and-wide-tables", srcs, P.p_cells, nontrivial=lambda q, x: q[1][2][:60], exhaustive=True)
+
+
+P.PROPS["C12"]["streams"].append(c12_hash_cells_and_wide_tables)
+
+PERTURB.append("#language: fr\nFonctionnalité: f\n  Scénario: s\n    Soit x\n      \"\"\"\n      jamais fermé\n")
+PERTURB.append("# language: no\nEgenskap: f\n  Scenario: s\n    Gitt g\n        ```\n   open and dialect switched\n")
+
+
+def o_c17_eager_iterators(ctx):
+    """the envelopes of a source do not depend on when its iterator is drained: creating the iterators of all sources
+    first and draining them afterwards gives what handling the sources one after the other gives"""
+    impl = impl_mod()
+    from gherkin.stream.gherkin_events import GherkinEvents
+    import copy as _copy
+    pool = ["Feature: a\n  Scenario: s\n    Given g\n", "Feature: b\n  @t\n  Scenario Outline: o\n    Given <x>\n    Examples:\n      | x |\n      | 1 |\n      | 2 |\n",
+            "Feature: bad\n  oops\n", "Feature: c\n  Background:\n    Given b\n  Rule: r\n    Example: e\n      Given g\n", ""]
+    r = rng("c17eager")
+    seqs = [[pool[0], pool[1]], [pool[1], pool[2], pool[3]], pool] + [[r.choice(pool) for _ in range(r.randint(2, 5))] for _ in range(S.n_for(10, 100))]
+    items = [(seq, opts) for seq in seqs for opts in ((True, True, True), (False, True, True), (False, False, True), (False, True, False))]
+
+    def check(it):
+        seq, (ps, pa, pp) = it
+        def mk():
+            return GherkinEvents(GherkinEvents.Options(print_source=ps, print_ast=pa, print_pickles=pp))
+        evs = [{"source": {"uri": "u%d" % i, "data": s, "mediaType": "text/x.cucumber.gherkin+plain"}} for i, s in enumerate(seq)]
+        ge = mk()
+        one_by_one = [_copy.deepcopy(list(ge.enum(e))) for e in evs]
+        ge2 = mk()
+        its = [ge2.enum(e) for e in evs]
+        drained = [_copy.deepcopy(list(x)) for x in its]
+        if canon(one_by_one) != canon(drained):
+            return {"what": "envelopes depend on when the iterators are created and drained", "sequential": one_by_one[0][:2], "eager": drained[0][:2]}
+        return None
+    return oracle("eager-iterators", items, check, describe=lambda it: repr(it[1]) + " " + repr([s[:20] for s in it[0]]))
+
+
+P.PROPS["C17"]["streams"].append(o_c17_eager_iterators)
+P.PROPS["C15"]["streams"].append(o_c17_eager_iterators)
